@@ -36,9 +36,11 @@ def oracle(ops, records, reset):
     if reset == "none":
         return None
     for i, (tok, rec) in enumerate(zip(ops, records)):
+        o = lib_txn.parse_record(rec)
+        if "LOCKED" in o["committed"] or "LOCKED" in o["working"]:
+            return (classify(ops[: i + 1]), i, "step %d (%s): the database file is locked by a pooled DBAPI connection that still has a transaction open" % (i, tok))
         if tok != "N":
             continue
-        o = lib_txn.parse_record(rec)
         if o["res"] != "ok":
             continue
         if o["working"] == "x":
